@@ -6,10 +6,15 @@ have = set(x['id'] for x in d['findings'])
 by = collections.defaultdict(list)
 for fn in sys.argv[1:]:
     for l in open(fn):
-        m = re.match(r'(C\d\d) seed\d+ (acc|exception):([^: ]+)[^|]*\|\|\| (.*)', l)
+        m = re.match(r'(C\d\d) seed\d+ (acc|gross|exception):([^: ]+)[^|]*\|\|\| (.*)', l)
         if not m:
             continue
         prop, kind, name, msg = m.groups()
+        bucket = l.split()[2]
+        if kind == 'acc' and bucket.endswith(':gross'):
+            bucket = bucket[:-6]
+        if kind == 'acc' and (l.split()[2].endswith(':gross') or bucket.startswith('gross:')):
+            kind, name = 'gross', bucket.split(':', 1)[1]
         by[(prop, kind, name)].append(msg.strip())
 new = 0
 for (prop, kind, name), msgs in sorted(by.items()):
@@ -17,6 +22,10 @@ for (prop, kind, name), msgs in sorted(by.items()):
         fid = '%s-exc-%s' % (prop, name.replace('@', '-'))
         e = {'id': fid, 'property': prop, 'status': 'known', 'bucket_prefix': 'exception:' + name, 'scope': 'bucket',
              'what': "undocumented exception escaping from a special function: " + msgs[0][:200]}
+    elif kind == 'gross':
+        fid = '%s-gross-%s' % (prop, name.replace(':', '-'))
+        e = {'id': fid, 'property': prop, 'status': 'known', 'bucket': 'gross:' + name, 'scope': 'bucket',
+             'what': "%s: result has (almost) no correct bits in this argument class (multi-seed survey, %d case(s)); first: %s" % (name.split(':')[0], len(msgs), msgs[0][:260])}
     else:
         fid = '%s-acc-%s' % (prop, name)
         e = {'id': fid, 'property': prop, 'status': 'known', 'bucket_prefix': 'acc:%s:' % name, 'scope': 'bucket',
